@@ -105,10 +105,6 @@ def handle : List String → String
   | _ => "bad-op"
 
 /-- counter-example lines replayed on the implementation on every run (see Witness.lean) -/
-def witnessLines : List String :=
-  [-- Witness.untrusted_noninterference_full_fails: trusted_proxies 10.0.0.0/8, X-Forwarded-For pre-set to nil,
-   -- plain-HTTP request for host "a" from 1.2.3.4:80 without headers (the oracle's second run adds
-   -- `Connection: X-Forwarded-For`)
-   "C10 req 10.0.0.0/8 nil 0 . 100 312e322e332e343a3830 0 61 . 312e322e332e34:312e322e332e34:0:-"]
+def witnessLines : List String := []   -- the tree violates no clause of C10 (Witness.lean holds a model fact, not a finding)
 
 end CaddyModel.C10
